@@ -50,5 +50,10 @@ var vpC01Targets = []vpC01Target{
 	{"REQUEST_HEADERS:k", func(p vpPair) bool { return p.where == 2 && vpLowerASCII(p.name) == "k" }, false, false},
 	{"REQUEST_COOKIES", func(p vpPair) bool { return p.where == 3 }, false, false},
 	{"ARGS_GET|REQUEST_COOKIES:k", func(p vpPair) bool { return p.where == 0 || p.where == 3 && vpLowerASCII(p.name) == "k" }, false, false},
+	// regex keys on the *_NAMES collections (names are matched without regard to case)
+	{"ARGS_NAMES:/^k/", func(p vpPair) bool { return vpArgs(p) && len(p.name) > 0 && vpLowerASCII(p.name)[0] == 'k' }, true, false},
+	{"&ARGS_NAMES:/^k/", func(p vpPair) bool { return vpArgs(p) && len(p.name) > 0 && vpLowerASCII(p.name)[0] == 'k' }, true, true},
+	{"REQUEST_HEADERS_NAMES:/^k/", func(p vpPair) bool { return p.where == 2 && len(p.name) > 0 && vpLowerASCII(p.name)[0] == 'k' }, true, false},
+	{"&REQUEST_HEADERS:/^k/", func(p vpPair) bool { return p.where == 2 && len(p.name) > 0 && vpLowerASCII(p.name)[0] == 'k' }, false, true},
 }
 
